@@ -155,7 +155,46 @@ def linop_shared_tensor():
             return "gradient through a composed operator sharing a tensor differs from the reference"
 
 
-TABLE = {"rootfinder_faults": rootfinder_faults, "partial_substitution_order": partial_substitution_order,
+def debug_mode_faults():
+    """a functional in debug mode checks the parameter declaration by running the user's method: the method raising at any of
+    those evaluations (or later) leaves the object with its own tensors and the debug flag as it was"""
+    import xitorch as xt
+    from xitorch.optimize import rootfinder
+
+    class EM(xt.EditableModule):
+        def __init__(self):
+            self.a = torch.tensor([1.0, 2.0], dtype=dt, requires_grad=True)
+            self.odd = torch.ones(2, dtype=torch.bfloat16)
+            self.c = torch.tensor([0.5, 0.25], dtype=dt, requires_grad=True)
+            self.ncalls, self.fail_at = 0, None
+
+        def f(self, y):
+            self.ncalls += 1
+            if self.fail_at is not None and self.ncalls == self.fail_at:
+                raise ValueError("user fault at call %d" % self.ncalls)
+            return y * y - self.a + 0 * self.c
+
+        def getparamnames(self, methodname, prefix=""):
+            return [prefix + "a", prefix + "c"]
+    for k in (None, 1, 2, 3, 4, 6):
+        m = EM()
+        m.fail_at = k
+        before = [id(m.a), id(m.odd), id(m.c)]
+        xt.set_debug_mode(True)
+        try:
+            rootfinder(m.f, torch.ones(2, dtype=dt))
+        except ValueError:
+            pass
+        finally:
+            flag = xt.is_debug_enabled()
+            xt.set_debug_mode(False)
+        if not flag:
+            return "debug flag lost after a fault at evaluation %s" % k
+        if [id(m.a), id(m.odd), id(m.c)] != before:
+            return "rootfinder in debug mode, user function raising at evaluation %s: the object holds other tensors afterwards" % k
+
+
+TABLE = {"debug_mode_faults": debug_mode_faults, "rootfinder_faults": rootfinder_faults, "partial_substitution_order": partial_substitution_order,
          "debug_flags": debug_flags, "linop_shared_tensor": linop_shared_tensor}
 
 if __name__ == "__main__":
